@@ -61,6 +61,15 @@ async def settle() -> bool:
     return False
 
 
+async def wait_virtual(seconds: float) -> None:
+    """Let `seconds` of event-loop time pass (virtual clock: the loop jumps there once every task is blocked)."""
+    # in slices: asyncio caps a single select at 24 h, which the virtual-clock selector reports as "sleep forever"
+    left = float(seconds)
+    while left > 0:
+        await asyncio.sleep(min(left, 3600.0))
+        left -= 3600.0
+
+
 class Grid:
     """tick <-> datetime on the grid of one case."""
 
